@@ -653,6 +653,12 @@ def _prim_atom(name, label, t, env, W):
             b = PRIM_BITS[ty]
             hi_ = (1 << (b - 1)) - 1 if ty.startswith("i") else (1 << b) - 1
             return ("Ok", PI(ty, args[0].v)) if args[0].v <= hi_ else ("Err", OPAQUE)
+        if m.group(3) == "TryFrom" and name == "try_from" and len(args) == 1 and isinstance(args[0], BN) and args[0].adt in SIGNED:
+            # the signed conversion has its own digit loop: trusted by contract like the unsigned one
+            ty = m.group(1)
+            b = PRIM_BITS[ty]
+            lo_, hi_ = (-(1 << (b - 1)), (1 << (b - 1)) - 1) if ty.startswith("i") else (0, (1 << b) - 1)
+            return ("Ok", PI(ty, args[0].v)) if lo_ <= args[0].v <= hi_ else ("Err", OPAQUE)
         if m.group(3) == "TryFrom" and name == "try_from" and len(args) == 1 and isinstance(args[0], PI):
             ty = m.group(1)
             b = PRIM_BITS[ty]
@@ -978,6 +984,16 @@ def _prim_atom(name, label, t, env, W):
             b = PRIM_BITS[ty]
             hi_ = (1 << (b - 1)) - 1 if ty.startswith("i") else (1 << b) - 1
             return ("Ok", PI(ty, a.v)) if 0 <= a.v <= hi_ else ("Err", OPAQUE)
+        return OPAQUE
+    # the signed twin (its own digit loop): Ok exactly when the value is representable
+    m2 = re.match(r"^<(u8|u16|u32|u64|u128|usize|i8|i16|i32|i64|i128|isize) as core::convert::TryFrom<(BIntD32|BIntD16|BIntD8|BInt)<[NM]>>>::try_from(::<[NM]>)?$", label)
+    if m2 and len(t[2]) == 1:
+        a = ev(t[2][0], env, W)
+        if isinstance(a, BN) and a.adt == m2.group(2):
+            ty = m2.group(1)
+            b = PRIM_BITS[ty]
+            lo_, hi_ = (-(1 << (b - 1)), (1 << (b - 1)) - 1) if ty.startswith("i") else (0, (1 << b) - 1)
+            return ("Ok", PI(ty, a.v)) if lo_ <= a.v <= hi_ else ("Err", OPAQUE)
         return OPAQUE
     m2 = re.match(r"^<(BUintD32|BUintD16|BUintD8|BUint)<N> as num_traits::FromPrimitive>::from_(u8|u16|u32|u64|u128|usize)$", label)
     if m2 and len(t[2]) == 1:
